@@ -247,6 +247,9 @@ class Server:
     def restart(self):
         if not self._restart:
             self._restart = True
+            if self.discovery:
+                # a new responder is started with the new interfaces
+                self.discovery.shutdown()
             for iface in self.interfaces.values():
                 iface.shutdown()
 
